@@ -574,3 +574,391 @@ func runPskConfigs(c *vh.Ctx, r *rand.Rand) {
 		}
 	}
 }
+
+// ---------- (A3) second ClientHellos after a HelloRetryRequest that differ from the first in one field ----------
+
+type helloChange struct {
+	name string
+	f    func(r *rand.Rand, w *wire) bool
+}
+
+// when the base hello lacks the extension a change works on, BOTH hellos first get it with this body (so that "longer",
+// "shorter", "removed" ... have something to work on); not for the ".../added" changes
+type presentInfo struct {
+	id    uint16
+	fresh []byte
+}
+
+var changePresent = map[string]presentInfo{}
+
+func (w *wire) ext(id uint16) *wext {
+	for i := range w.exts {
+		if w.exts[i].id == id {
+			return &w.exts[i]
+		}
+	}
+	return nil
+}
+
+// u16 list inside a 2-byte length prefix (supported_groups, signature_algorithms, signature_algorithms_cert)
+func growU16List(r *rand.Rand, d []byte, delta int) ([]byte, bool) {
+	if len(d) < 2 {
+		return nil, false
+	}
+	l := append([]byte{}, d[2:]...)
+	if delta > 0 {
+		for i := 0; i < delta; i++ {
+			l = append(l, byte(1+r.Intn(200)), byte(1+r.Intn(200)))
+		}
+	} else {
+		if len(l) < -2*delta+2 {
+			return nil, false
+		}
+		l = l[:len(l)+2*delta]
+	}
+	return u16lp(l), true
+}
+
+func listChanges(name string, id uint16, fresh []byte) []helloChange {
+	out := listChanges0(name, id, fresh)
+	for i := range out {
+		if i != 4 && fresh != nil {
+			changePresent[out[i].name] = presentInfo{id, fresh}
+		}
+	}
+	return out
+}
+
+func listChanges0(name string, id uint16, fresh []byte) []helloChange {
+	return []helloChange{
+		{name + "/longer", func(r *rand.Rand, w *wire) bool {
+			x := w.ext(id)
+			if x == nil {
+				return false
+			}
+			d, ok := growU16List(r, x.data, 1+r.Intn(3))
+			if ok {
+				x.data = d
+			}
+			return ok
+		}},
+		{name + "/shorter", func(r *rand.Rand, w *wire) bool {
+			x := w.ext(id)
+			if x == nil {
+				return false
+			}
+			d, ok := growU16List(r, x.data, -1)
+			if ok {
+				x.data = d
+			}
+			return ok
+		}},
+		{name + "/element-changed", func(r *rand.Rand, w *wire) bool {
+			x := w.ext(id)
+			if x == nil || len(x.data) < 4 {
+				return false
+			}
+			d := append([]byte{}, x.data...)
+			d[len(d)-1] ^= byte(1 + r.Intn(255))
+			x.data = d
+			return true
+		}},
+		{name + "/removed", func(r *rand.Rand, w *wire) bool {
+			for i := range w.exts {
+				if w.exts[i].id == id {
+					w.exts = append(w.exts[:i:i], w.exts[i+1:]...)
+					return true
+				}
+			}
+			return false
+		}},
+		{name + "/added", func(r *rand.Rand, w *wire) bool {
+			if w.ext(id) != nil {
+				return false
+			}
+			// before key_share (which stays last)
+			n := len(w.exts)
+			w.exts = append(w.exts[:n-1:n-1], wext{id, fresh}, w.exts[n-1])
+			return true
+		}},
+	}
+}
+
+func helloChanges() []helloChange {
+	var out []helloChange
+	out = append(out, listChanges("supported-groups", 10, []byte{0, 4, 0, 23, 0, 29})...)
+	out = append(out, listChanges("signature-algorithms", 13, []byte{0, 4, 4, 3, 8, 4})...)
+	out = append(out, listChanges("signature-algorithms-cert", 50, []byte{0, 6, 4, 3, 8, 4, 4, 1})...)
+	out = append(out, listChanges("status-request", 5, []byte{1, 0, 0, 0, 0})...)
+	out = append(out, listChanges("sct", 18, nil)...)
+	out = append(out, listChanges("ems", 23, nil)...)
+	out = append(out, listChanges("psk-modes", 45, []byte{1, 1})...)
+	out = append(out, listChanges("session-ticket", 35, nil)...)
+	out = append(out, listChanges("renegotiation-info", 0xff01, []byte{0})...)
+	out = append(out, listChanges("ec-point-formats", 11, []byte{1, 0})...)
+	out = append(out, listChanges("server-name", 0, u16lp(append([]byte{0}, u16lp([]byte("c34.test"))...)))...)
+	out = append(out, listChanges("cookie", 44, u16lp([]byte{1, 2, 3}))...)
+	out = append(out, listChanges("early-data", 42, nil)...)
+	out = append(out,
+		helloChange{"alpn/longer", func(r *rand.Rand, w *wire) bool {
+			x := w.ext(16)
+			if x == nil || len(x.data) < 2 {
+				return false
+			}
+			x.data = u16lp(append(append([]byte{}, x.data[2:]...), 2, 'x', 'y'))
+			return true
+		}},
+		helloChange{"alpn/shorter", func(r *rand.Rand, w *wire) bool {
+			x := w.ext(16)
+			if x == nil || len(x.data) < 3 {
+				return false
+			}
+			l := x.data[2:]
+			first := 1 + int(l[0])
+			if first >= len(l) {
+				return false
+			}
+			x.data = u16lp(append([]byte{}, l[:first]...))
+			return true
+		}},
+		helloChange{"alpn/added", func(r *rand.Rand, w *wire) bool {
+			if w.ext(16) != nil {
+				return false
+			}
+			n := len(w.exts)
+			w.exts = append(w.exts[:n-1:n-1], wext{16, u16lp([]byte{2, 'h', '2'})}, w.exts[n-1])
+			return true
+		}},
+		helloChange{"alpn/removed", listChanges("alpn", 16, nil)[3].f},
+		helloChange{"supported-versions/longer", func(r *rand.Rand, w *wire) bool {
+			x := w.ext(43)
+			if x == nil {
+				return false
+			}
+			l := append(append([]byte{}, x.data[1:]...), 3, 2)
+			x.data = append([]byte{byte(len(l))}, l...)
+			return true
+		}},
+		helloChange{"supported-versions/shorter", func(r *rand.Rand, w *wire) bool {
+			x := w.ext(43)
+			if x == nil || len(x.data) < 5 {
+				return false
+			}
+			l := append([]byte{}, x.data[1:len(x.data)-2]...)
+			x.data = append([]byte{byte(len(l))}, l...)
+			return true
+		}},
+		helloChange{"cipher-suites/longer", func(r *rand.Rand, w *wire) bool {
+			w.suites = append(append([]uint16{}, w.suites...), 0x1302, 0xc02f)
+			return true
+		}},
+		helloChange{"cipher-suites/shorter", func(r *rand.Rand, w *wire) bool {
+			if len(w.suites) < 2 {
+				return false
+			}
+			w.suites = append([]uint16{}, w.suites[:len(w.suites)-1]...)
+			return true
+		}},
+		helloChange{"cipher-suites/element-changed", func(r *rand.Rand, w *wire) bool {
+			w.suites = append([]uint16{}, w.suites...)
+			w.suites[len(w.suites)-1] ^= 0x0101
+			return true
+		}},
+		helloChange{"compression/longer", func(r *rand.Rand, w *wire) bool { w.comp = append(append([]byte{}, w.comp...), 1); return true }},
+		helloChange{"session-id/changed", func(r *rand.Rand, w *wire) bool { w.sid = rbytes(r, len(w.sid)); return len(w.sid) > 0 }},
+		helloChange{"session-id/longer", func(r *rand.Rand, w *wire) bool { w.sid = rbytes(r, 32)[:min(32, len(w.sid)+1)]; return true }},
+		helloChange{"random/changed", func(r *rand.Rand, w *wire) bool { w.random = rbytes(r, 32); return true }},
+		helloChange{"legacy-version/changed", func(r *rand.Rand, w *wire) bool { w.vers ^= 1; return true }},
+		helloChange{"unchanged", func(r *rand.Rand, w *wire) bool { return true }},
+	)
+	return out
+}
+
+func runHelloChangeAfterHRR(c *vh.Ctx, r *rand.Rand) {
+	var bases [][]byte
+	for _, id := range []utls.ClientHelloID{utls.HelloGolang, utls.HelloChrome_133, utls.HelloFirefox_120, utls.HelloSafari_16_0} {
+		if raw, err := buildHello(id, "c34.test"); err == nil && len(raw) > 0 {
+			bases = append(bases, raw)
+		}
+	}
+	if len(bases) == 0 {
+		return
+	}
+	changes := helloChanges()
+	reps := 1
+	if c.Tier != "quick" {
+		reps = len(bases)
+	}
+	for ci, ch := range changes {
+		for rep := 0; rep < reps; rep++ {
+			base := bases[(ci+rep)%len(bases)]
+			if pi, need := changePresent[ch.name]; need {
+				if wb, ok := splitHello(base); ok && wb.ext(pi.id) == nil {
+					wb.exts = append(wb.exts, wext{pi.id, pi.fresh})
+					wb.hasExts = true
+					base = wb.bytes(0, 0)
+				}
+			}
+			ensure := []uint16{23, 29}
+			h1, ok1 := keyShareHello(r, base, 23, 65, "last", ensure...)
+			h2, ok2 := keyShareHello(r, base, 29, 32, "last", ensure...)
+			if !ok1 || !ok2 {
+				continue
+			}
+			w2, ok := splitHello(h2)
+			if !ok || !ch.f(r, &w2) {
+				c.Count("hrr-change-not-applicable/" + ch.name)
+				continue
+			}
+			h2 = w2.bytes(0, 0)
+			cfg := serverConfig(srvCfgs[(ci+rep)%2])
+			cfg.CurvePreferences = []utls.CurveID{utls.X25519}
+			s1, s2 := record(22, 0x0301, h1), record(22, 0x0303, h2)
+			gotHRR := false
+			res, hung := withServer(cfg, func(conn net.Conn) {
+				conn.Write(s1)
+				flight := readFlight(conn)
+				gotHRR = len(flight) > 5 && flight[0] == 22
+				conn.SetDeadline(time.Now().Add(deadline))
+				conn.Write(s2)
+				if tc, ok := conn.(*net.TCPConn); ok {
+					tc.CloseWrite()
+				}
+			})
+			judge(c, "hello/hrr-change/"+ch.name, append(append([]byte{}, s1...), s2...), res, hung,
+				"hello #1 (P-256 share) -> HelloRetryRequest for X25519 -> hello #2 = hello #1 with a valid X25519 share and one more difference: "+ch.name)
+			if gotHRR {
+				c.Count("hrr-change-run")
+			} else {
+				c.Count("hrr-change-no-hrr")
+			}
+		}
+	}
+}
+
+// ---------- (D) well-formed ENCRYPTED records from a client that holds the keys: TLS 1.0-1.2 CBC suites ----------
+
+type cbcKind struct {
+	name string
+	// build returns the CBC plaintext blocks to send raw, or (nil, payload) to send payload through the regular protection
+	build func(r *rand.Rand, bs, mac int) (blocks []byte, payload []byte, regular bool)
+}
+
+func padded(content []byte, bs int, padLen int) []byte { // content + padLen bytes of value padLen-1, total must be a multiple of bs
+	out := append([]byte{}, content...)
+	for i := 0; i < padLen; i++ {
+		out = append(out, byte(padLen-1))
+	}
+	return out
+}
+
+func cbcKinds() []cbcKind {
+	allPad := func(n int) cbcKind {
+		return cbcKind{fmt.Sprintf("all-padding-%d", n), func(r *rand.Rand, bs, mac int) ([]byte, []byte, bool) {
+			if n%bs != 0 {
+				return nil, nil, false
+			}
+			return padded(nil, bs, n), nil, false
+		}}
+	}
+	return []cbcKind{
+		allPad(16), allPad(32), allPad(48), allPad(64), allPad(256),
+		{"padding-longer-than-room-for-mac", func(r *rand.Rand, bs, mac int) ([]byte, []byte, bool) {
+			// one random byte of "content", the rest valid padding: content+MAC cannot fit
+			return padded(rbytes(r, 1), bs, 2*bs-1), nil, false
+		}},
+		{"exactly-mac-then-padding", func(r *rand.Rand, bs, mac int) ([]byte, []byte, bool) { // zero-length content, wrong MAC
+			pad := bs - mac%bs
+			return padded(rbytes(r, mac), bs, pad), nil, false
+		}},
+		{"mac-short-by-one", func(r *rand.Rand, bs, mac int) ([]byte, []byte, bool) {
+			pad := bs - (mac-1)%bs
+			return padded(rbytes(r, mac-1), bs, pad), nil, false
+		}},
+		{"inconsistent-padding", func(r *rand.Rand, bs, mac int) ([]byte, []byte, bool) {
+			b := padded(rbytes(r, mac+5), bs, bs-(mac+5)%bs)
+			b[len(b)-2] ^= 0x40
+			return b, nil, false
+		}},
+		{"padding-byte-255-short-record", func(r *rand.Rand, bs, mac int) ([]byte, []byte, bool) {
+			b := rbytes(r, 2*bs)
+			b[len(b)-1] = 255
+			return b, nil, false
+		}},
+		{"random-blocks", func(r *rand.Rand, bs, mac int) ([]byte, []byte, bool) { return rbytes(r, bs*(1+r.Intn(6))), nil, false }},
+		{"valid-zero-length-appdata", func(r *rand.Rand, bs, mac int) ([]byte, []byte, bool) { return nil, []byte{}, true }},
+		{"valid-one-byte", func(r *rand.Rand, bs, mac int) ([]byte, []byte, bool) { return nil, []byte{7}, true }},
+		{"valid-max-length", func(r *rand.Rand, bs, mac int) ([]byte, []byte, bool) { return nil, rbytes(r, 16384), true }},
+		{"valid-over-max-length", func(r *rand.Rand, bs, mac int) ([]byte, []byte, bool) { return nil, rbytes(r, 16385), true }},
+		{"valid-far-over-max-length", func(r *rand.Rand, bs, mac int) ([]byte, []byte, bool) { return nil, rbytes(r, 18500), true }},
+	}
+}
+
+func runCBCRecords(c *vh.Ctx, r *rand.Rand) {
+	versions := []struct {
+		name string
+		v    uint16
+	}{{"tls10", utls.VersionTLS10}, {"tls11", utls.VersionTLS11}, {"tls12", utls.VersionTLS12}}
+	suites := []uint16{0xc009, 0xc00a, 0xc023} // ECDHE-ECDSA AES128-CBC-SHA, AES256-CBC-SHA, AES128-CBC-SHA256 (TLS 1.2 only)
+	clientCert := utls.Certificate{Certificate: [][]byte{pki.LeafDER}, PrivateKey: pki.LeafKey}
+	for vi, ver := range versions {
+		for ki, k := range cbcKinds() {
+			for _, typ := range []uint8{23, 22} {
+				if typ == 22 && (c.Tier == "quick" && ki%3 != vi) {
+					continue
+				}
+				suite := suites[(vi+ki)%len(suites)]
+				if suite == 0xc023 && ver.v != utls.VersionTLS12 {
+					suite = suites[ki%2]
+				}
+				cfg := serverConfig(srvCfg{"cbc", ver.v, ver.v, utls.NoClientCert})
+				cfg.CipherSuites = []uint16{suite}
+				var sent string
+				var sentBytes []byte
+				res, hung := withServer(cfg, func(conn net.Conn) {
+					ccfg := &utls.Config{InsecureSkipVerify: true, ServerName: "c34.test", MinVersion: ver.v, MaxVersion: ver.v,
+						CipherSuites: []uint16{suite}, Certificates: []utls.Certificate{clientCert}}
+					cl := utls.Client(conn, ccfg)
+					if err := cl.Handshake(); err != nil {
+						sent = "client handshake failed: " + err.Error()
+						conn.Close()
+						return
+					}
+					isCBC, bs, mac, _ := cl.VerifC34CBCInfo()
+					if !isCBC {
+						sent = "not a CBC suite"
+						conn.Close()
+						return
+					}
+					blocks, payload, regular := k.build(r, bs, mac)
+					var err error
+					switch {
+					case regular:
+						err = cl.VerifC34WriteProtectedRecord(typ, payload)
+						sentBytes = payload[:min(len(payload), 64)]
+						sent = fmt.Sprintf("regularly protected record, type %d, %d payload bytes", typ, len(payload))
+					case blocks != nil:
+						err = cl.VerifC34WriteCBCBlocks(typ, blocks)
+						sentBytes = blocks
+						sent = fmt.Sprintf("record type %d whose CBC plaintext is %s (block %d, MAC %d)", typ, vh.Hex(blocks[:min(len(blocks), 64)]), bs, mac)
+					default:
+						sent = "kind not applicable to this block size"
+					}
+					if err == nil {
+						cl.Write([]byte("after"))
+					}
+					if tc, ok := conn.(*net.TCPConn); ok {
+						tc.CloseWrite()
+					}
+				})
+				key := fmt.Sprintf("cbc/%s/%s", ver.name, k.name)
+				judge(c, key, sentBytes, res, hung, fmt.Sprintf("%s, suite %#04x, after a completed handshake the client sends: %s", ver.name, suite, sent))
+				if res != nil && res.hsErr == nil {
+					c.Count("cbc-run/" + ver.name)
+				} else {
+					c.Count("cbc-no-handshake/" + ver.name)
+				}
+			}
+		}
+	}
+}
